@@ -375,6 +375,7 @@ func Readable(fd int) bool {
 	return int(n) > 0 && p.revents != 0
 }
 
+//go:nocheckptr
 //go:norace
 func iovTotal(iov *syscall.Iovec, n int) int {
 	s := 0
@@ -387,6 +388,7 @@ func iovTotal(iov *syscall.Iovec, n int) int {
 
 // truncIov returns a copy of the vector limited to k bytes.
 //
+//go:nocheckptr
 //go:norace
 func truncIov(iov *syscall.Iovec, n, k int) []syscall.Iovec {
 	ivs := (*[1 << 16]syscall.Iovec)(unsafe.Pointer(iov))[:n:n]
@@ -423,6 +425,7 @@ func shortOptions(total int) []int {
 }
 
 //go:uintptrescapes
+//go:nocheckptr
 //go:norace
 func RawSyscall(trap, a1, a2, a3 uintptr) (r1, r2 uintptr, err syscall.Errno) {
 	if !vsched.Active() || led == nil {
@@ -505,6 +508,7 @@ func RawSyscall(trap, a1, a2, a3 uintptr) (r1, r2 uintptr, err syscall.Errno) {
 }
 
 //go:uintptrescapes
+//go:nocheckptr
 //go:norace
 func Syscall(trap, a1, a2, a3 uintptr) (r1, r2 uintptr, err syscall.Errno) {
 	if !vsched.Active() || led == nil {
@@ -519,6 +523,7 @@ type epollEvent struct {
 }
 
 //go:uintptrescapes
+//go:nocheckptr
 //go:norace
 func RawSyscall6(trap, a1, a2, a3, a4, a5, a6 uintptr) (r1, r2 uintptr, err syscall.Errno) {
 	if !vsched.Active() || led == nil {
@@ -548,6 +553,7 @@ func RawSyscall6(trap, a1, a2, a3, a4, a5, a6 uintptr) (r1, r2 uintptr, err sysc
 }
 
 //go:uintptrescapes
+//go:nocheckptr
 //go:norace
 func Syscall6(trap, a1, a2, a3, a4, a5, a6 uintptr) (r1, r2 uintptr, err syscall.Errno) {
 	if !vsched.Active() || led == nil {
@@ -556,6 +562,7 @@ func Syscall6(trap, a1, a2, a3, a4, a5, a6 uintptr) (r1, r2 uintptr, err syscall
 	return RawSyscall6(trap, a1, a2, a3, a4, a5, a6)
 }
 
+//go:nocheckptr
 //go:norace
 func epollWait(epfd, events, n, msec uintptr) (r1, r2 uintptr, err syscall.Errno) {
 	ex := vsched.Cur()
